@@ -141,8 +141,12 @@ func PutIfAbsent(store SessionStore, key string, value interface{}, options ...S
 	lock := sessionKeyLock(key)
 	lock.Lock()
 	defer lock.Unlock()
-	if store.Exists(key) {
+	// fail closed: only "not found" means absent, any other read failure must not be taken for "never seen before"
+	var existing json.RawMessage
+	if err := store.Get(key, &existing); err == nil {
 		return false, nil
+	} else if !errors.Is(err, ErrNotFound) {
+		return false, err
 	}
 	if err := store.Put(key, value, options...); err != nil {
 		return false, err
